@@ -12,20 +12,35 @@ import sys
 import threading
 
 TOOL = 4
+HOLDER_STATS = {}
 
 
 class Abort(BaseException):
     """Raised inside worker threads to unwind after deadlock / event budget."""
 
 
+class SchedHolder(object):
+    """Locks can be created at any time (a cache may make a new one); they find the scheduler of the
+    run in progress through this holder."""
+    sched = None
+
+
+HOLDER = SchedHolder()
+
+
 class LockShim(object):
-    def __init__(self, real, sched):
+    def __init__(self, real, holder=HOLDER):
         self.real = real
-        self.sched = sched
+        self.holder = holder
+        HOLDER_STATS['locks_created'] = HOLDER_STATS.get('locks_created', 0) + 1
+
+    @property
+    def sched(self):
+        return self.holder.sched
 
     def acquire(self, blocking=True, timeout=-1):
-        s = self.sched
-        tid = s.tid()
+        s = self.holder.sched
+        tid = s.tid() if s is not None else None
         if tid is None or s.free_running:
             return self.real.acquire(blocking, timeout)
         while not self.real.acquire(False):
@@ -36,8 +51,8 @@ class LockShim(object):
 
     def release(self):
         self.real.release()
-        s = self.sched
-        if not s.free_running:
+        s = self.holder.sched
+        if s is not None and not s.free_running:
             s.wake_waiters(self)
 
     __enter__ = acquire
@@ -92,6 +107,8 @@ class Sched(object):
         if self.record_tids:
             self.event_tid.append(tid)
         tgt = self.switches.get(e)
+        if tgt == -1:      # "whoever else can run"
+            tgt = next((t for t in range(self.n) if t != tid and self.state[t] == 'ready'), None)
         if tgt is not None and tgt != tid and self.state[tgt] == 'ready':
             self.made.append((e, tgt))
             self.switch_sites.add((code.co_qualname, offset))
@@ -219,12 +236,14 @@ def run_threads(sched, monitor, programs, do_op, watchdog_s=30.0):
             sched.finish(tid)
 
     monitor.sched = sched
+    HOLDER.sched = sched
     threads = [threading.Thread(target=worker, args=(t,), daemon=True) for t in range(sched.n)]
     for t in threads:
         t.start()
     sched.sems[sched.first].release()
     ok = sched.main_sem.acquire(timeout=watchdog_s)
     monitor.sched = None
+    HOLDER.sched = None
     if not ok:
         return hist, 'watchdog'
     for t in threads:
